@@ -4,3 +4,4 @@ import TsVerif.C12.Props
 #print axioms TsVerif.C12.unmarked_shared
 #print axioms TsVerif.C12.marked_bound
 #print axioms TsVerif.C12.marked_upper
+#print axioms TsVerif.C12.lex_calls_bound
